@@ -7,7 +7,7 @@
 //!                          (A and B are two independently built instances of the zoo, so object
 //!                          identity never short-cuts a comparison)
 //!   tpl <i> <j>            the template operators on the same pair: `a < b`, `a == b`, `a in [b]`,
-//!                          `a in {b: 1}`, `{b: 1}[a] is defined`, `a <= b`, `a > b`   → seven 0/1/e flags
+//!                          `a in {b: 1}`, `{b: 1}[a] is defined`, `a <= b`, `a > b`, and the two map forms with a second entry   → nine 0/1/e flags
 //!   flist <form> <word>    every collection filter with every keyword option on one input list; the
 //!                          laws are evaluated here, directly on the outputs   → `ok <n>` or `FAIL …`
 //!   batch/slicef <len> <count> <fill>   run lengths of `batch` / `slice`   → `ok:l1,l2,…`, `err:Kind`, `panic`
@@ -411,7 +411,7 @@ fn run_pair(a: &Value, b: &Value) -> String {
     format!("{c} {e} {h}")
 }
 
-const TPLS: [&str; 7] = [
+const TPLS: [&str; 9] = [
     "{{ 1 if a < b else 0 }}",
     "{{ 1 if a == b else 0 }}",
     "{{ 1 if a in [b] else 0 }}",
@@ -419,6 +419,8 @@ const TPLS: [&str; 7] = [
     "{{ 1 if {b: 1}[a] is defined else 0 }}",
     "{{ 1 if a <= b else 0 }}",
     "{{ 1 if a > b else 0 }}",
+    "{{ 1 if a in {b: 1, '~sentinel~': 2} else 0 }}",
+    "{{ 1 if {b: 1, '~sentinel~': 2}[a] is defined else 0 }}",
 ];
 
 fn tpl_env() -> Environment<'static> {
